@@ -23,6 +23,11 @@ func c11checkHeader(h *authHeader) {
 func VerifC11_ParserTotal() {
 	s := verifString("header", verifParam("maxlen", 4))
 	h := parseWWWAuthenticate(s)
+	verifObserve("parsed", h != nil)
+	if h != nil {
+		verifObserve("scheme", h.scheme)
+		verifObserve("nparams", len(h.params))
+	}
 	c11checkHeader(h)
 	verifCover("end")
 }
